@@ -40,7 +40,7 @@ MANIFEST = {
                  'pairs; stack/level invariants checked at every probe and '
                  'after the call',
     'text': 'All ordered forests of <= 3 (quick) / <= 4 (thorough) block '
-            'nodes over 16 block kinds (in, batched in, in mapping, in over mixed pushed / unpushed items, with, with only, '
+            'nodes over 19 block kinds (in, batched in, in mapping, in over mixed pushed / unpushed items, in / batched in over an empty sequence with the blocks in the else branch, if with three named conditions, with, with only, '
             'let, if, try body, try handler, try/finally body, finally, '
             'raise, sub-template, tree, tree with expand_all + '
             'branches_expr) are run on the real code as a sub-template call '
@@ -57,7 +57,7 @@ MANIFEST = {
             'states.',
 }
 DYNAMIC = True        # few heavy cases: dynamic load balancing
-RULE = ('programs: forests of <= 3 / <= 4 block nodes over 16 kinds; faults: '
+RULE = ('programs: forests of <= 3 / <= 4 block nodes over 19 kinds; faults: '
         'none, one (each ordinal x {raise HB, return}), two (second at every '
         'later ordinal; quick: for programs of <= 2 blocks).  A run is '
         'non-trivial when a fault fired (control flow was changed).')
@@ -65,7 +65,7 @@ ASSUMPTIONS = ['tree rendering needs URL and RESPONSE in the namespace; the '
                'harness supplies both']
 CASE_CPU_SECONDS = 300.0
 
-KINDS = ('in', 'inb', 'inmap', 'inmix', 'with', 'withonly', 'let', 'if', 'try', 'tryh',
+KINDS = ('in', 'inb', 'inmap', 'inmix', 'inempty', 'inbempty', 'if2', 'with', 'withonly', 'let', 'if', 'try', 'tryh',
          'tryf', 'fin', 'raise', 'sub', 'tree', 'treex')
 LEAF_ONLY = ('withonly', 'tree', 'treex')     # no nested blocks inside
 SYNTAXES = ('dtml', 'ssi', 'epfs')
@@ -131,6 +131,20 @@ class Builder:
                                  ['obj', {'e': ['lit', 2]}]],
                                 ['lit', 5], ['lit', 't']]]]
             n = ['in', N('seq%d' % k), inner, [T('empty')], []]
+        elif kind in ('inempty', 'inbempty'):
+            # empty sequence: the blocks live in the else branch
+            ns['seq%d' % k] = ['probe', 'seq%d' % k, ['seq', 'list', []]]
+            opts = [['size', '2']] if kind == 'inbempty' else []
+            n = ['in', N('seq%d' % k), [T('body')], inner, opts]
+        elif kind == 'if2':
+            # two conditions given by name are evaluated before a branch
+            # is taken
+            ns['c%d' % k] = ['probe', 'c%d' % k, ['lit', 0]]
+            ns['d%d' % k] = ['probe', 'd%d' % k, ['lit', 0]]
+            ns['e%d' % k] = ['probe', 'e%d' % k, ['lit', 1]]
+            n = ['if', [[N('c%d' % k), [T('no')]], [N('d%d' % k), [T('no')]],
+                        [N('e%d' % k), inner]],
+                 [self.probe('else%d' % k)]]
         elif kind == 'inmap':
             ns['seq%d' % k] = ['probe', 'seq%d' % k, [
                 'seq', 'tuple', [['map', {'e': ['lit', 1]}],
